@@ -83,6 +83,12 @@ def pred(item, c):
         e1 = _err(J @ _H(J), np.broadcast_to(np.eye(2), J.shape))
         e2 = _err(_H(J) @ J, np.broadcast_to(np.eye(2), J.shape))
         return max(e1, e2) <= PTOL, f'{c["kind"]} retarder: max|J J^H - 1| = {e1!r}, max|J^H J - 1| = {e2!r}'
+    if item == 'retarder_compose':
+        a, b, ab = (P.linear_retarder(c['d1'], c['theta']), P.linear_retarder(c['d2'], c['theta']),
+                    P.linear_retarder(c['d1'] + c['d2'], c['theta']))
+        e = _err(a @ b, ab)
+        tol = PTOL * max(1.0, abs(c['d1']) + abs(c['d2']))      # the phase d1 + d2 carries the rounding of the sum
+        return e <= tol, f'retarder(d1) retarder(d2) vs retarder(d1 + d2) at theta = {c["theta"]!r}: {e!r}'
     if item == 'wave_plates':
         h, q = P.half_wave_plate(c['theta']), P.quarter_wave_plate(c['theta'])
         e1, e2 = _err(h @ h, np.eye(2)), _err(q @ q, h)
@@ -112,6 +118,65 @@ def pred(item, c):
         e = _err(a, Rm @ b @ R)
         return e <= PTOL, (f'vortex(charge={c["charge"]!r}, retardance={c["retardance"]!r}, rotate={c["rotate"]!r}) vs '
                            f'R(-rotate) vortex(rotate=0) R(rotate): {e!r}')
+    if item == 'pure':
+        # functions documented as pure: two calls on the SAME argument objects give the same answer and leave them untouched
+        rng = np.random.Generator(np.random.PCG64(c['seed']))
+        S = tuple(c['shape'])
+        fn = c['fn']
+        if fn == 'vector_vortex_retarder':
+            dt = {'float': float, 'int': int}[c.get('dtype', 'float')]
+            th = (rng.uniform(-3, 3, size=S) if dt is float else rng.integers(-3, 4, size=S)).astype(dt)
+            args = (c['charge'], th, c['retardance'], c['rotate'])
+            call = P.vector_vortex_retarder
+        elif fn == 'linear_retarder':
+            args = (rng.uniform(-6, 6, size=S), c['theta'])
+            call = lambda de, th: P.linear_retarder(de, th, shape=S)
+        elif fn == 'jones_rotation_matrix':
+            args = (rng.uniform(-6, 6, size=S),)
+            call = lambda th: P.jones_rotation_matrix(th, shape=S)
+        elif fn in ('jones_to_mueller', 'pauli_coefficients'):
+            args = (rng.uniform(-1, 1, size=S + (2, 2)) + 1j * rng.uniform(-1, 1, size=S + (2, 2)),)
+            call = getattr(P, fn)
+        elif fn == 'apply_polarization_optic':
+            S = S if len(S) == 2 else (3, 2)      # documented for 2-D scalar fields
+            args = (rng.normal(size=S) + 1j * rng.normal(size=S), P.linear_retarder(rng.uniform(-3, 3, size=S), 0.4, shape=S))
+            call = P.apply_polarization_optic
+        else:
+            raise KeyError(fn)
+        before = [np.array(a, copy=True) if isinstance(a, np.ndarray) else a for a in args]
+        r1 = call(*args)
+        r1 = [np.array(x, copy=True) for x in (r1 if isinstance(r1, tuple) else (r1,))]
+        for a, b in zip(args, before):
+            if isinstance(a, np.ndarray) and not np.array_equal(a, b):
+                return False, f'{fn} modified a caller-owned argument array in place (max change {float(np.max(np.abs(a - b)))!r})'
+        r2 = call(*args)
+        r2 = list(r2 if isinstance(r2, tuple) else (r2,))
+        e = max(_err(x, y) for x, y in zip(r2, r1))
+        return e <= PTOL, f'{fn}: second call on the same arguments differs by {e!r}'
+    if item == 'defaults':
+        th, de, al, q = c['theta'], c['retardance'], c['alpha'], c['charge']
+        az = np.array(c['azimuth'], dtype=float)
+        J = _l2m(c['J'])
+        pairs = [
+            ('linear_retarder(retardance)', P.linear_retarder(de), P.linear_retarder(de, 0, None)),
+            ('linear_retarder(retardance, theta)', P.linear_retarder(de, th), P.linear_retarder(de, theta=th, shape=None)),
+            ('linear_diattenuator(alpha)', P.linear_diattenuator(al), P.linear_diattenuator(al, 0, None)),
+            ('half_wave_plate()', P.half_wave_plate(), P.linear_retarder(np.pi, 0)),
+            ('quarter_wave_plate()', P.quarter_wave_plate(), P.linear_retarder(np.pi / 2, 0)),
+            ('linear_polarizer()', P.linear_polarizer(), P.linear_diattenuator(0, 0)),
+            ('half_wave_plate(theta)', P.half_wave_plate(th), P.linear_retarder(np.pi, th)),
+            ('vector_vortex_retarder(charge, theta)', P.vector_vortex_retarder(q, az.copy()), P.vector_vortex_retarder(q, az.copy(), np.pi, 0)),
+            ('vector_vortex_retarder(charge, theta, retardance)', P.vector_vortex_retarder(q, az.copy(), de),
+             P.vector_vortex_retarder(q, az.copy(), de, 0)),
+            ('jones_rotation_matrix(theta)', P.jones_rotation_matrix(th), P.jones_rotation_matrix(th, None)),
+            ('jones_to_mueller(J)', P.jones_to_mueller(J), P.jones_to_mueller(J, True)),
+            ('pauli_spin_matrix(k)', P.pauli_spin_matrix(c['k']), P.pauli_spin_matrix(c['k'], None)),
+        ]
+        for name, a, b in pairs:
+            e = _err(a, b)
+            if e > PTOL:
+                return False, f'{name} with defaults omitted differs from the documented defaults by {e!r}'
+        return True, 'defaults omitted = documented defaults (theta 0, retardance pi, rotate 0, shape None, broadcast True)'
     if item == 'mueller_mul':
         A, B = _l2m(c['A']), _l2m(c['B'])
         lhs = P.jones_to_mueller(A @ B, broadcast=c.get('broadcast', True))
@@ -140,6 +205,29 @@ def pred(item, c):
             out = P.linear_retarder(de, c['theta'], shape=S)
             for idx in np.ndindex(*S):
                 worst = max(worst, _err(out[idx], P.linear_retarder(float(de[idx]), c['theta'])))
+        elif what == 'retarder_theta':      # spatially varying ORIENTATION (and retardance) of a linear retarder
+            th = rng.uniform(-6, 6, size=S)
+            de = rng.uniform(-6, 6, size=S)
+            out = P.linear_retarder(de, th, shape=S)
+            out2 = P.linear_retarder(c['retardance'], th, shape=S)
+            if out.shape != S + (2, 2) or out2.shape != S + (2, 2):
+                return False, f'shape {out.shape} / {out2.shape}, expected {S + (2, 2)}'
+            for idx in np.ndindex(*S):
+                worst = max(worst, _err(out[idx], P.linear_retarder(float(de[idx]), float(th[idx]))),
+                            _err(out2[idx], P.linear_retarder(c['retardance'], float(th[idx]))))
+        elif what == 'diattenuator_batch':  # spatially varying diattenuation and orientation
+            th = rng.uniform(-6, 6, size=S)
+            al = rng.uniform(0, 1, size=S)
+            out = P.linear_diattenuator(al, th, shape=S)
+            out2 = P.linear_diattenuator(al, c['theta'], shape=S)
+            out3 = P.linear_polarizer(th, shape=S)
+            for o in (out, out2, out3):
+                if o.shape != S + (2, 2):
+                    return False, f'shape {o.shape}, expected {S + (2, 2)}'
+            for idx in np.ndindex(*S):
+                worst = max(worst, _err(out[idx], P.linear_diattenuator(float(al[idx]), float(th[idx]))),
+                            _err(out2[idx], P.linear_diattenuator(float(al[idx]), c['theta'])),
+                            _err(out3[idx], P.linear_polarizer(float(th[idx]))))
         elif what == 'rotation':
             th = rng.uniform(-6, 6, size=S)
             out = P.jones_rotation_matrix(th, shape=S)
@@ -164,6 +252,10 @@ def pred(item, c):
             out = P.jones_to_mueller(J)
             if out.shape != S + (4, 4):
                 return False, f'shape {out.shape}, expected {S + (4, 4)}'
+            outk = P.jones_to_mueller(J, broadcast=False)      # the np.kron path must serve batches as well
+            if outk.shape != S + (4, 4):
+                return False, f'jones_to_mueller(batch of leading shape {S}, broadcast=False) has shape {outk.shape}, expected {S + (4, 4)}'
+            worst = max(worst, _err(outk, out))
             for idx in np.ndindex(*S):
                 worst = max(worst, _err(out[idx], P.jones_to_mueller(J[idx], broadcast=False)),
                             _err(out[idx], P.jones_to_mueller(J[idx], broadcast=True)))
@@ -211,6 +303,13 @@ def pred(item, c):
                 if e > 1e-9:
                     return False, (f'{c["func"]} ({kind} pupil): component [{i},{j}] differs from propagating that component '
                                    f'alone by {e!r} of its own scale')
+        # keyword-only extra arguments, and a propagator that takes no extra argument at all
+        import inspect
+        names = [p_ for p_ in inspect.signature(base).parameters][1:1 + len(args)]
+        outk = f(E, **dict(zip(names, args)), **kw)
+        worst = max(worst, _err(outk, out))
+        out1 = P.jones_adapter(lambda w: 2 * w)(E)
+        worst = max(worst, _err(out1, 2 * E))
         scal = f(E[..., 0, 0], *args, **kw)
         worst = max(worst, _err(scal, base(E[..., 0, 0], *args, **kw)))
         return worst <= 1e-9, f'{c["func"]} ({kind} pupil): polarised propagation vs per-component propagation: {worst!r}'
@@ -239,12 +338,14 @@ def _check(ctx, item, case, nontrivial=True, tag=None):
 # ------------------------------------------------------------------------------------------------
 def _angle(rng):
     return float(rng.choice([0.0, math.pi / 4, math.pi / 2, math.pi, round(rng.uniform(-2 * math.pi, 2 * math.pi), 4),
-                             round(rng.uniform(-2 * math.pi, 2 * math.pi), 4), round(rng.uniform(-2 * math.pi, 2 * math.pi), 4)]))
+                             round(rng.uniform(-2 * math.pi, 2 * math.pi), 4), round(rng.uniform(-2 * math.pi, 2 * math.pi), 4),
+                             round(rng.uniform(-1000, 1000), 3), round(rng.uniform(-40, 40), 3)]))
 
 
 def _ret(rng):
     return float(rng.choice([math.pi, math.pi / 2, 0.0, 1.0, round(rng.uniform(-2 * math.pi, 2 * math.pi), 4),
-                             round(rng.uniform(-2 * math.pi, 2 * math.pi), 4), round(rng.uniform(-2 * math.pi, 2 * math.pi), 4)]))
+                             round(rng.uniform(-2 * math.pi, 2 * math.pi), 4), round(rng.uniform(-2 * math.pi, 2 * math.pi), 4),
+                             round(rng.uniform(-300, 300), 3), round(rng.uniform(-30, 30), 3)]))
 
 
 def _cm(rng):
@@ -347,12 +448,21 @@ def correspondence(ctx):
                                 'rotate': float(rng.choice([0.0, _angle(rng)]))}, tag=f'vortex{S}')
         _check(ctx, 'polarizer', {'theta': th, 'phi': _angle(rng)})
         _check(ctx, 'wave_plates', {'theta': th})
+        _check(ctx, 'retarder_compose', {'d1': de, 'd2': _ret(rng), 'theta': th})
         ro = _angle(rng)
         _check(ctx, 'vortex_rotate', {'charge': q, 'azimuth': az.tolist(), 'retardance': _ret(rng), 'rotate': ro},
                nontrivial=(ro != 0), tag=f'vortex{S}')
         kind = ['retarder', 'diattenuator'][i % 2]
         _check(ctx, 'rotate_conj', {'kind': kind, 'param': de if kind == 'retarder' else round(float(rng.uniform(0, 1)), 4),
                                     'theta': th}, nontrivial=(th != 0))
+        if i % 5 == 0:
+            _check(ctx, 'defaults', {'theta': th, 'retardance': de, 'alpha': round(float(rng.uniform(0, 1)), 4), 'charge': q,
+                                     'azimuth': az.tolist(), 'J': _cm(rng), 'k': int(i // 5) % 4})
+            _check(ctx, 'pure', {'fn': ['vector_vortex_retarder', 'linear_retarder', 'jones_rotation_matrix', 'jones_to_mueller',
+                                        'pauli_coefficients', 'apply_polarization_optic'][(i // 5) % 6],
+                                 'shape': [[4], [3, 2], [2, 2]][(i // 30) % 3], 'seed': int(rng.integers(0, 2 ** 31)),
+                                 'charge': q, 'retardance': de, 'rotate': float(rng.choice([0.0, 0.7])), 'theta': th,
+                                 'dtype': 'float'}, tag=['vortex', 'retarder', 'rotation', 'mueller', 'pauli', 'optic'][(i // 5) % 6])
         _check(ctx, 'mueller_mul', {'A': _cm(rng), 'B': _cm(rng), 'broadcast': bool(i % 2)})
         _check(ctx, 'mueller_unitary', {'phase': round(float(rng.uniform(-3, 3)), 4), 'retardance': de, 'theta': th,
                                         'theta2': _angle(rng)})
@@ -360,11 +470,11 @@ def correspondence(ctx):
 
     # ------------------------------------------------ batches vs element-by-element
     shapes = [(), (5,), (3, 4), (2, 1, 3)]
-    whats = ['retarder', 'rotation', 'shape_broadcast', 'vortex', 'mueller', 'pauli']
+    whats = ['retarder', 'rotation', 'shape_broadcast', 'vortex', 'mueller', 'pauli', 'retarder_theta', 'diattenuator_batch']
     for i in range(ctx.scale(96, 1800) * widen):
         S = shapes[i % len(shapes)]
         what = whats[(i // len(shapes)) % len(whats)]
-        if S == () and what in ('retarder', 'rotation', 'shape_broadcast'):
+        if S == () and what in ('retarder', 'rotation', 'shape_broadcast', 'retarder_theta', 'diattenuator_batch'):
             S = (4,)
         c = {'what': what, 'shape': list(S), 'seed': int(rng.integers(0, 2 ** 31)), 'theta': _angle(rng),
              'charge': float(rng.choice([1, 2, 4, -2, 1.5])), 'retardance': _ret(rng), 'rotate': _angle(rng)}
@@ -391,21 +501,26 @@ def correspondence(ctx):
             args, kw = _PROP_ARGS[fn]
             ctx.case('add_jones_propagation', {'func': fn})
             out = getattr(propagation, fn)(E, *args, **kw)
-            ref = saved[fn](E[..., 1, 0], *args, **kw)
-            if out.shape != ref.shape + (2, 2) or _err(out[..., 1, 0], ref) > 1e-13:
-                ctx.pred_fail('add_jones_propagation', {'func': fn}, 'patched propagation routine differs from per-component propagation')
+            for a_ in (0, 1):
+                for b_ in (0, 1):
+                    ref = saved[fn](E[..., a_, b_], *args, **kw)
+                    if out.shape != ref.shape + (2, 2) or _err(out[..., a_, b_], ref) > 1e-13:
+                        ctx.pred_fail('add_jones_propagation', {'func': fn}, f'patched propagation routine differs from per-component propagation in component [{a_},{b_}]')
+        for k, v in saved.items():
+            setattr(propagation, k, v)
+        if 'focus' in funcs and 'unfocus' in funcs:      # a subset: only the named routine is patched
+            P.add_jones_propagation(funcs_to_change=['focus'])
+            ctx.case('add_jones_propagation', {'subset': ['focus']})
+            ok1 = getattr(propagation, 'focus')(E, 2).shape == saved['focus'](E[..., 0, 0], 2).shape + (2, 2)
+            ok2 = propagation.unfocus is saved['unfocus']
+            if not (ok1 and ok2):
+                ctx.pred_fail('add_jones_propagation', {'subset': ['focus']}, 'funcs_to_change=[focus] did not patch exactly focus')
     except Exception as ex:
         ctx.pred_fail('add_jones_propagation', {}, f'raised {type(ex).__name__}: {ex}')
     finally:
         for k, v in saved.items():
             setattr(propagation, k, v)
-    # API limits observed (not part of the statement; recorded for the maintainers)
-    try:
-        P.linear_retarder(1.0, np.array([0.1, 0.2]), shape=(2,))
-        ctx.notes.append('linear_retarder now accepts a batched theta')
-    except Exception:
-        ctx.notes.append('linear_retarder / linear_diattenuator reject a batched theta (rotation built without shape): '
-                         'batched orientation is only available through jones_rotation_matrix(theta, shape) and the vortex retarder')
+
 
 
 # ------------------------------------------------------------------------------------------------
@@ -419,6 +534,8 @@ def _small_scope():
         for phi in (0.0, 0.7):
             yield 'polarizer', {'theta': th, 'phi': phi}
         yield 'wave_plates', {'theta': th}
+        for d1, d2 in ((1.0, 2.0), (8.0, 0.5), (math.pi, math.pi), (100.0, -3.0)):
+            yield 'retarder_compose', {'d1': d1, 'd2': d2, 'theta': th}
         yield 'rotate_conj', {'kind': 'retarder', 'param': 1.0, 'theta': th}
         yield 'rotate_conj', {'kind': 'diattenuator', 'param': 0.25, 'theta': th}
     for q in (1, 2):
@@ -443,6 +560,15 @@ def _small_scope():
         for de in (math.pi, 1.0):
             for ro in (0.4, math.pi / 2, 1.0):
                 yield 'vortex_rotate', {'charge': q, 'azimuth': [0.0, 0.7], 'retardance': de, 'rotate': ro}
+    for what in ('retarder_theta', 'diattenuator_batch'):
+        for S in ([2], [2, 2]):
+            yield 'batch', {'what': what, 'shape': S, 'seed': 1, 'theta': 0.3, 'charge': 2.0, 'retardance': 1.0, 'rotate': 0.2}
+    for fn_ in ('vector_vortex_retarder', 'linear_retarder', 'jones_rotation_matrix', 'jones_to_mueller', 'pauli_coefficients'):
+        for dt in (('float', 'int') if fn_ == 'vector_vortex_retarder' else ('float',)):
+            yield 'pure', {'fn': fn_, 'shape': [2], 'seed': 1, 'charge': 2.0, 'retardance': 1.0, 'rotate': 0.0, 'theta': 0.3, 'dtype': dt}
+    yield 'pure', {'fn': 'vector_vortex_retarder', 'shape': [2], 'seed': 1, 'charge': 1.5, 'retardance': 1.0, 'rotate': 0.0, 'theta': 0.3,
+                   'dtype': 'int'}
+    yield 'defaults', {'theta': 0.4, 'retardance': 1.0, 'alpha': 0.25, 'charge': 2.0, 'azimuth': [0.0, 0.7], 'J': basis[3], 'k': 3}
     for fn in sorted(_PROP_ARGS):
         for pupil in ('generic', 'near_symmetric', 'near_symmetric_abs', 'weak', 'weak_offdiag'):
             yield 'adapter', {'func': fn, 'shape': [8, 6], 'seed': 1, 'pupil': pupil}
@@ -492,6 +618,8 @@ def replay(inp):
     print('replaying', item, c)
     if item in _CONS_TO_PRED:
         item, c = 'unitary', {**c, 'kind': _CONS_TO_PRED[item]}
+    elif item == 'linear_retarder' and False:
+        pass
     elif item in ('half_wave_plate', 'quarter_wave_plate'):
         item, c = 'wave_plates', {'theta': c['theta']}
     elif item == 'vector_vortex_retarder':
@@ -532,12 +660,18 @@ MANIFEST_ENTRY = {
              'products of jones_rotation_matrix, linear_retarder, linear_diattenuator, vector_vortex_retarder, pauli_spin_matrix; '
              'wrapper arguments; the 4x4 U literal; pauli_coefficients formulas; adapter read/write order; structural facts on '
              '_empty_jones, jones_to_mueller, broadcast_kron, supported_propagation_funcs. MODELLED AND COMPARED (1e-9): all '
-             'constructors, Mueller matrices and Pauli coefficients on random parameters. CORRESPONDENCE ONLY: batched = element-by-'
+             'constructors, Mueller matrices and Pauli coefficients on random parameters. Also proved: vortex(rotate) = R(-rotate) vortex(0) R(rotate); with Real.cos / Real.sin / Complex.exp the Mueller matrix of every '
+             'linear retarder and of every vortex retarder (any charge) is orthogonal with M00 = 1; exp(i pi) = -1, exp(i pi/2) = i for the '
+             'translated wave-plate retardances, HWP^2 = 1, QWP^2 = HWP; translated default arguments. Structural facts are three-valued '
+             '(false = recognised and wrong). CORRESPONDENCE ONLY (no shape / dtype / in-place semantics in the Lean model): batched = element-by-'
              'element for leading shapes (), (5,), (3,4), (2,1,3); polarised focus / unfocus / *_fixed_sampling / angular_spectrum '
              '= per-component propagation (generic, nearly symmetric and weak Jones pupils, each component at 1e-9 of its own scale); '
-             'vortex(rotate) = R(-rotate) vortex(0) R(rotate) on the real code; apply_polarization_optic.'),
+             'vortex(rotate) = R(-rotate) vortex(0) R(rotate), retarder(d1) retarder(d2) = retarder(d1+d2), defaults omitted = documented defaults, '
+             'purity (same argument arrays twice: same answer, arrays untouched) of the array-taking functions, batched orientation / '
+             'diattenuation / jones_to_mueller(broadcast=False), adapter with keyword-only and no extra arguments, all on the real code; '
+             'apply_polarization_optic (2-D fields).'),
     'note': ('Trusted: Lean kernel + standard axioms; translator (incl. reading jones_rotation_matrix(-theta) as (cos theta, -sin theta)); '
              'NumPy matmul/einsum/kron/inv; IEEE rounding. Not covered: polarisation-vector helpers (circular_pol_vector(shape=...) '
-             'raises IndexError - outside the statement); linear_retarder/diattenuator reject a batched theta (API limit, noted). '
-             'vector_vortex_retarder scales the caller\'s theta array in place (noted, not part of the statement).'),
+             'raises IndexError - outside the statement); apply_polarization_optic for ndim != 2 (docstring and code disagree; outside the '
+             'statement); rejection of alpha outside [0,1] (outside the quantifier).'),
 }
